@@ -336,7 +336,7 @@ def work_chain(bins, seed, idx, tmp):
             observe()
         # GitFlow bookkeeping: a line forked before the tag takes the tagged line in with --no-ff, so the
         # only commit after the tag is a merge commit
-        if rng.random() < 0.5 and repo.head[0] == "branch":
+        if rng.random() < 0.85 and repo.head[0] == "branch":
             cur = repo.head[1]
             old = rng.choice(sorted(repo.anc(repo.head_cid())))
             name = "main2" if "main2" not in repo.branches else "main3"
@@ -389,7 +389,7 @@ def run(ctx):
         ctx.evaluations += r["n"]
         ctx.count("clean_prerelease_tag_runs", r["n"])
         allbad += r["bad"]
-    nch = 48 if quick else 700
+    nch = 72 if quick else 900
     for r in core.pmap(work_chain, [(ctx.bins, "%s/%d" % (ctx.prop, ctx.seed), i, ctx.tmp) for i in range(nch)]):
         ctx.merge_counts(r["st"])
         ctx.evaluations += r["st"]["chain_observations"]
